@@ -272,6 +272,11 @@ StepRules(st, self, types, cache) ==
              /\ RespPausedView(pre) /\ ~stayAfter)
            => (Has(TrOf(st.tr, "resume"), LAMBDA t : ~t.msg.paused /\ t.msg.accepted) /\ post.ip = pre.ip)
         THEN {} ELSE {"C11.validationResume"})
+  (* the answer to an accepted restart (or new) request announces the responder's OWN pause state as recorded by that step - the initiator's view follows it *)
+  \cup (IF (isReqStim /\ m.kind \in {"New","Restart"} /\ T.hasPost /\ valOK /\ ~term /\ ~amInit /\ reply.kind \in {"New","Restart"} /\ reply.accepted /\ st.ret \in {"nil","pause"}
+            /\ (has => (Dest("PauseResponder", pre.status) # "INV" /\ Dest("ResumeResponder", pre.status) # "INV" /\ pre.status \notin Cleanup)))
+           => reply.paused = RespPausedView(post)
+        THEN {} ELSE {"C11.answerAnnouncesPause"})
   (* ---------------- C07 (manager level): every block report reaches the channel - the index follows the highest position, unique or not ---------------- *)
   \cup (IF (k \in {"OnDataQueued","OnDataSent","OnDataReceived"} /\ has /\ ~term /\ st.panic = "")
            => LET ev == CASE k = "OnDataQueued" -> "DataQueued" [] k = "OnDataSent" -> "DataSent" [] OTHER -> "DataReceived"
